@@ -37,3 +37,41 @@ Proof.
   pose proof (failed_call_identity P (abs c0) c h) as F. rewrite Href in F. simpl in F. apply F. exact He.
 Qed.
 Print Assumptions C09_partial.
+
+(* AT (Model/AllocModel.v) — the allocation side of an aborted transaction (alloctxn.PostAbort): the on-disk bitmap is
+   untouched and the in-memory allocator forgets exactly the numbers the transaction took; a transaction that begins,
+   allocates and frees at will and aborts, with nothing else in between, leaves disk, allocator and the other
+   transactions exactly as they were. *)
+From V Require Model.AllocModel Proofs.AllocProofs.
+Theorem C09_abort_effect : forall s t tx s',
+  AllocModel.astep s (AllocModel.AAbort t) = Some s' -> AllocModel.a_txns s !! t = Some tx ->
+  AllocModel.a_disk s' = AllocModel.a_disk s /\
+  (forall n, n ∈ AllocModel.a_mem s' <-> n ∈ AllocModel.a_mem s /\ n ∉ AllocModel.t_al tx) /\
+  AllocModel.a_txns s' = delete t (AllocModel.a_txns s).
+Proof. exact AllocProofs.abort_effect. Qed.
+Print Assumptions C09_abort_effect.
+
+Theorem C09_aborted_transaction_leaves_no_allocation_trace : forall s t ops s1 s2,
+  AllocProofs.ainv s -> AllocModel.a_txns s !! t = None ->
+  AllocModel.astep s (AllocModel.ABegin t) = Some s1 ->
+  Forall (fun o => match o with AllocModel.AAlloc t' _ | AllocModel.AFree t' _ => t' = t | _ => False end) ops ->
+  AllocModel.aruns s1 ops = s2 ->
+  forall s3, AllocModel.astep s2 (AllocModel.AAbort t) = Some s3 ->
+  AllocModel.a_disk s3 = AllocModel.a_disk s /\ AllocModel.a_mem s3 = AllocModel.a_mem s /\ AllocModel.a_txns s3 = AllocModel.a_txns s.
+Proof. exact AllocProofs.begin_abort_identity. Qed.
+Print Assumptions C09_aborted_transaction_leaves_no_allocation_trace.
+
+(* IC (Model/IcacheModel.v) — the cache side of an aborted transaction (FsTxn.Abort: evict, then release): the disk is
+   untouched, none of the inodes it held stays cached or buffered, every other inode is exactly as it was. *)
+From V Require Model.IcacheModel Proofs.IcacheProofs.
+Theorem C09_abort_evicts_what_it_edited :
+  forall (V : Type) (E : EqDecision V) (dflt : V) (s : IcacheModel.icstate) (t : nat) (s' : IcacheModel.icstate),
+  IcacheModel.icstep dflt s (IcacheModel.IAbort t) = Some s' ->
+  IcacheModel.c_disk s' = IcacheModel.c_disk s /\
+  (forall i, IcacheModel.c_owner s !! i = Some t ->
+     IcacheModel.c_cache s' !! i = None /\ IcacheModel.c_wbuf s' !! i = None /\ IcacheModel.c_owner s' !! i = None) /\
+  (forall i, IcacheModel.c_owner s !! i <> Some t ->
+     IcacheModel.c_cache s' !! i = IcacheModel.c_cache s !! i /\ IcacheModel.c_wbuf s' !! i = IcacheModel.c_wbuf s !! i /\
+     IcacheModel.c_owner s' !! i = IcacheModel.c_owner s !! i).
+Proof. exact @IcacheProofs.ic_abort_effect. Qed.
+Print Assumptions C09_abort_evicts_what_it_edited.
